@@ -39,6 +39,8 @@ def cases(draw, tier):
     d = D(draw)
     if d.p(4):
         return gen.scotland_prior_stage_case(d) if d.p(60) else gen.scotland_threeway_case(d)
+    if d.int(0, 99) == 0:
+        return gen.meek_prf_boundary_case(d)        # total surplus exactly omega at a non-electing iteration (B.2.e: "<", not "<=")
     if d.p(2):
         return gen.narrow_chain_case(d, statutory_only=True)      # values truncated to exactly zero beside valued papers
     if d.p(2):
